@@ -173,3 +173,81 @@ Corollary peak_spec_same_halfwave x a b p q :
   PE.first_argmax (pad (x_padn x) (x_raw x)) a b p ->
   PE.first_argmax (pad (x_padn x) (x_raw x)) a b q -> p = q.
 Proof. apply PE.first_argmax_unique. Qed.
+
+(* peak_spec / trough_spec written out (for the statement files) *)
+Lemma peak_spec_unfold x z :
+  peak_spec x z <->
+  exists a b p, PE.closed_halfwave (x_pos x) true a b /\
+    PE.first_argmax (pad (x_padn x) (x_raw x)) a b p /\
+    z = (Z.of_nat p - Z.of_nat (x_padn x))%Z /\
+    (x_boundary x < z < Z.of_nat (length (x_raw x)) - x_boundary x)%Z.
+Proof. reflexivity. Qed.
+
+Lemma trough_spec_unfold x z :
+  trough_spec x z <->
+  exists a b p, PE.closed_halfwave (x_pos x) false a b /\
+    PE.first_argmin (pad (x_padn x) (x_raw x)) a b p /\
+    z = (Z.of_nat p - Z.of_nat (x_padn x))%Z /\
+    (x_boundary x < z < Z.of_nat (length (x_raw x)) - x_boundary x)%Z.
+Proof. reflexivity. Qed.
+
+(* first_extrema = None, both kinds at once, through peak_spec / trough_spec *)
+Theorem find_extrema_none_spec_both x peaks troughs :
+  find_extrema x = Ok (peaks, troughs) -> x_first x = FNone ->
+  length (x_raw x) + 2 * x_padn x = length (x_pos x) ->
+  Forall (fun v => finite v = true) (x_raw x) ->
+  (forall z, In z peaks <-> peak_spec x z) /\ (forall z, In z troughs <-> trough_spec x z).
+Proof.
+  intros H Hfirst Hlen Hfin. split; intros z.
+  - exact (find_extrema_none_spec x peaks troughs z H Hfirst Hlen Hfin).
+  - exact (find_extrema_none_spec_troughs x peaks troughs z H Hfirst Hlen Hfin).
+Qed.
+
+(* first_extrema = 'peak', end to end: the reported peaks are exactly the half-wave peaks inside
+   the margins that are followed by a half-wave trough inside the margins; the reported troughs
+   are exactly the half-wave troughs inside the margins preceded by such a peak *)
+Theorem find_extrema_peak_first_spec x peaks troughs :
+  find_extrema x = Ok (peaks, troughs) -> x_first x = FPeak ->
+  length (x_raw x) + 2 * x_padn x = length (x_pos x) ->
+  Forall (fun v => finite v = true) (x_raw x) ->
+  (forall z, In z peaks <-> peak_spec x z /\ exists t, trough_spec x t /\ (z < t)%Z) /\
+  (forall z, In z troughs <-> trough_spec x z /\ exists p, peak_spec x p /\ (p < z)%Z).
+Proof.
+  intros H Hfirst Hlen Hfin.
+  destruct (PE.find_extrema_ok_raw _ _ H) as (pk & tr & Hraw). unfold PE.xsigp in Hraw.
+  destruct (PE.find_extrema_peak_first_members x peaks troughs pk tr H Hfirst Hraw Hlen) as (Hp & Ht).
+  split; intros z.
+  - rewrite Hp. rewrite (filtered_peaks_iff x pk tr z Hraw Hlen Hfin). split.
+    + intros (Hz & t & Hin & Hlt). split; [exact Hz|]. exists t. split; [|exact Hlt].
+      exact (proj1 (filtered_troughs_iff x pk tr t Hraw Hlen Hfin) Hin).
+    + intros (Hz & t & Hin & Hlt). split; [exact Hz|]. exists t. split; [|exact Hlt].
+      exact (proj2 (filtered_troughs_iff x pk tr t Hraw Hlen Hfin) Hin).
+  - rewrite Ht. rewrite (filtered_troughs_iff x pk tr z Hraw Hlen Hfin). split.
+    + intros (Hz & p & Hin & Hlt). split; [exact Hz|]. exists p. split; [|exact Hlt].
+      exact (proj1 (filtered_peaks_iff x pk tr p Hraw Hlen Hfin) Hin).
+    + intros (Hz & p & Hin & Hlt). split; [exact Hz|]. exists p. split; [|exact Hlt].
+      exact (proj2 (filtered_peaks_iff x pk tr p Hraw Hlen Hfin) Hin).
+Qed.
+
+Theorem find_extrema_trough_first_spec x peaks troughs :
+  find_extrema x = Ok (peaks, troughs) -> x_first x = FTrough ->
+  length (x_raw x) + 2 * x_padn x = length (x_pos x) ->
+  Forall (fun v => finite v = true) (x_raw x) ->
+  (forall z, In z troughs <-> trough_spec x z /\ exists p, peak_spec x p /\ (z < p)%Z) /\
+  (forall z, In z peaks <-> peak_spec x z /\ exists t, trough_spec x t /\ (t < z)%Z).
+Proof.
+  intros H Hfirst Hlen Hfin.
+  destruct (PE.find_extrema_ok_raw _ _ H) as (pk & tr & Hraw). unfold PE.xsigp in Hraw.
+  destruct (PE.find_extrema_trough_first_members x peaks troughs pk tr H Hfirst Hraw Hlen) as (Ht & Hp).
+  split; intros z.
+  - rewrite Ht. rewrite (filtered_troughs_iff x pk tr z Hraw Hlen Hfin). split.
+    + intros (Hz & p & Hin & Hlt). split; [exact Hz|]. exists p. split; [|exact Hlt].
+      exact (proj1 (filtered_peaks_iff x pk tr p Hraw Hlen Hfin) Hin).
+    + intros (Hz & p & Hin & Hlt). split; [exact Hz|]. exists p. split; [|exact Hlt].
+      exact (proj2 (filtered_peaks_iff x pk tr p Hraw Hlen Hfin) Hin).
+  - rewrite Hp. rewrite (filtered_peaks_iff x pk tr z Hraw Hlen Hfin). split.
+    + intros (Hz & t & Hin & Hlt). split; [exact Hz|]. exists t. split; [|exact Hlt].
+      exact (proj1 (filtered_troughs_iff x pk tr t Hraw Hlen Hfin) Hin).
+    + intros (Hz & t & Hin & Hlt). split; [exact Hz|]. exists t. split; [|exact Hlt].
+      exact (proj2 (filtered_troughs_iff x pk tr t Hraw Hlen Hfin) Hin).
+Qed.
